@@ -803,6 +803,10 @@ pub struct Incentive {
     g_new_epoch: bool,
     /// claim-cap boundary scenario: this actor claims next (its pending epochs were set to 99/100/101)
     g_force_claim: Option<usize>,
+    /// scripted scenario: op lines (without the `<epoch> <time>` prefix) emitted next, each with the
+    /// number of epochs and seconds to advance BEFORE it (reversed: popped from the end)
+    g_script: Vec<(u64, u64, String)>,
+    g_scen_done: [bool; 2],
 }
 
 fn sum_pos(o: &Obs) -> Option<u128> {
@@ -1549,6 +1553,9 @@ impl Incentive {
         self.g_len = rng.range(60, 110);
         self.g_snap_mode = rng.below(4);
         self.g_new_epoch = false;
+        self.g_script.clear();
+        // which scripted scenarios this case runs (the long-idle one costs ~150 ops: one case in five)
+        self.g_scen_done = [!rng.chance(1, 2), !rng.chance(1, 5)];
         format!(
             "init incentive lp={} fee={} feeamt={} maxflows={} buffer={} mindur={} maxdur={} e0={}",
             if lp_native { "native" } else { "cw20" },
@@ -1587,7 +1594,108 @@ impl Incentive {
         }
     }
 
+    /// a well-funded `open_flow` body (`<acct> open_flow …` with exactly the funds the contract asks for)
+    fn flow_body(cfg: &Cfg, acct: &str, asset: usize, amt: u128, start: u64, end: u64) -> String {
+        let mut offs = String::new();
+        if asset == cfg.fee_asset {
+            offs.push_str(&format!(" {asset}:{amt}"));
+        } else {
+            if cfg.fee_amt > 0 {
+                offs.push_str(&format!(" {}:{}", cfg.fee_asset, cfg.fee_amt));
+            }
+            offs.push_str(&format!(" {asset}:{amt}"));
+        }
+        format!("{acct} open_flow {asset} {amt} {start} {end}{offs}")
+    }
+
+    /// scripted scenarios that random generation reaches too rarely; returns true when one was queued
+    fn queue_scenario(&mut self, rng: &mut Rng) -> bool {
+        let cfg = self.w.as_ref().unwrap().cfg.clone();
+        let e = self.g_epoch;
+        let which = if !self.g_scen_done[1] { 1 } else { 0 };
+        if self.g_scen_done[which] {
+            return false;
+        }
+        self.g_scen_done[which] = true;
+        let u = ACCTS[1 + rng.below(3) as usize];
+        let mut sc: Vec<(u64, u64, String)> = vec![];
+        if which == 0 {
+            // two closed positions of ONE address that unlock at the same second: (a) close, re-open the
+            // same duration and close again within one block; (b) durations d+x and d closed x seconds apart
+            let lo = cfg.min_dur.max(MIN_D);
+            let hi = cfg.max_dur.min(MAX_D);
+            if lo + 10_000 >= hi {
+                return false;
+            }
+            let d = rng.range(lo + 1, hi - 5_000);
+            let (a1, a2) = (1 + rng.log_uniform(40), 1 + rng.log_uniform(40));
+            if rng.chance(1, 2) {
+                sc.push((0, rng.range(1, 100), format!("{u} open_position {a1} {d} - 0:{a1}")));
+                sc.push((0, rng.range(1, 100), format!("{u} close_position {d}")));
+                sc.push((0, 0, format!("{u} open_position {a2} {d} - 0:{a2}")));
+                sc.push((0, 0, format!("{u} close_position {d}")));
+            } else {
+                let x = rng.range(1, 4000);
+                sc.push((0, rng.range(1, 100), format!("{u} open_position {a1} {} - 0:{a1}", d + x)));
+                sc.push((0, rng.range(1, 100), format!("{u} open_position {a2} {d} - 0:{a2}")));
+                sc.push((0, rng.range(1, 100), format!("{u} close_position {}", d + x)));
+                sc.push((0, x, format!("{u} close_position {d}")));
+            }
+            // later: everything unlocks, the address withdraws
+            sc.push((rng.below(2), hi + 10, format!("{u} withdraw")));
+        } else {
+            // an address idle for more than EPOCH_CLAIM_CAP epochs of a long flow claims (capped), a second
+            // flow in the same reward asset is opened, and the address claims again
+            let n_flows = self.w.as_ref().unwrap().prev.flows.len() as u64;
+            if n_flows + 2 > cfg.max_flows {
+                self.g_scen_done[which] = false;
+                return false;
+            }
+            let asset = *rng.pick(&[1usize, 2, 3]);
+            let d = rng.range(cfg.min_dur.max(MIN_D), cfg.max_dur.min(MAX_D));
+            // the address dominates the pool's weight, so that its claims approach the whole emission
+            let a1 = if rng.chance(3, 4) { (1u128 << 112) + rng.log_uniform(110) } else { 1000 + rng.log_uniform(40) };
+            let extra = if asset == cfg.fee_asset { cfg.fee_amt } else { 0 };
+            let f1 = 100_000 + rng.log_uniform(50) + extra;
+            let f2 = 50_000 + rng.log_uniform(50) + extra;
+            let gap = rng.range(101, 150);
+            let len = gap + rng.range(10, 40);
+            let late = rng.range(2, 9);
+            // epochs at which the lines run: e, e, e+1, e+1, e+1+gap, …
+            sc.push((0, 10, format!("{u} open_position {a1} {d} - 0:{a1}")));
+            sc.push((0, 10, Self::flow_body(&cfg, "dave", asset, f1, e, e + len)));
+            sc.push((1, 10, format!("{u} snapshot")));
+            sc.push((0, 10, format!("{u} claim")));
+            // somebody takes the weight snapshot in every epoch of the idle period (an epoch without a
+            // snapshot pays nothing), the address itself stays idle
+            for _ in 1..gap {
+                sc.push((1, 10, format!("{} snapshot", ACCTS[1 + rng.below(4) as usize])));
+            }
+            sc.push((1, 10, format!("{u} snapshot")));
+            sc.push((0, 10, format!("{u} claim")));
+            sc.push((0, 10, Self::flow_body(&cfg, "carol", asset, f2, e + 1 + gap, e + 1 + gap + 20)));
+            sc.push((late, 10, format!("{u} snapshot")));
+            sc.push((0, 10, format!("{u} claim")));
+        }
+        sc.reverse();
+        self.g_len += sc.len() as u64;
+        self.g_script = sc;
+        true
+    }
+
     fn gen_op(&mut self, rng: &mut Rng) -> String {
+        // scripted scenario in progress
+        if self.g_script.is_empty() && self.g_force_claim.is_none() && rng.chance(1, 12) {
+            self.queue_scenario(rng);
+        }
+        if let Some((de, dt, body)) = self.g_script.pop() {
+            self.g_epoch += de;
+            self.g_time += dt;
+            if de > 0 {
+                self.g_new_epoch = true;
+            }
+            return format!("{} {} {body}", self.g_epoch, self.g_time);
+        }
         let w = self.w.as_ref().unwrap();
         let cfg = w.cfg.clone();
         let prev = &w.prev;
